@@ -533,11 +533,11 @@ package model
 //@             && result[k].Props.Name in *available && *result[k].Bias == (*available)[result[k].Props.Name]
 //@   loop 1 invariant [at_most_requested] len(result) <= iter && (cap(result) == 0 || fresh(result))
 
-// evaluated(f, d): the ranking method f gives for the state d (that it is a function of the state is assumed, "assumes")
-//@ spec evaluated(f PreferenceFunction, d *DecisionMakingParams) *AlternativesRanking
+// isEvaluation(r, f, d): r is the ranking method f gives for the state d (a relation, assumed of every call: "assumes")
+//@ spec isEvaluation(r *AlternativesRanking, f PreferenceFunction, d *DecisionMakingParams) bool
 //@ ifacemethod PreferenceFunction.Evaluate
 //@   ensures result != nil
-//@   assumes [a_function_of_the_state_it_is_given] result == evaluated(self, dmp)
+//@   assumes [the_methods_ranking_of_the_state_it_is_given] isEvaluation(result, self, dmp)
 
 //@ func (*DecisionMaker).MakeDecision
 //@   property C20 C07 C08 C09 C01 C03 C04 C05 C06 C11 C12 C13 C14 C15 C16 C17 C18 C19
@@ -549,7 +549,7 @@ package model
 //@   ensures [C20 validated_before_answering] validCriteria(dm.Criteria)
 //@             && (forall i int, c int :: 0 <= i && i < len(dm.KnownAlternatives) && 0 <= c && c < len(dm.Criteria) ==> dm.Criteria[c].Id in dm.KnownAlternatives[i].Criteria)
 //@   returnhint [the_named_method_ranks_the_state_the_biases_left] *preferenceFunction == funcOf(preferenceFunctions, dm.PreferenceFunction)
-//@             && res == evaluated(*preferenceFunction, processedParams) && result.Result == *res && result.Biases == *biasesProps
+//@             && isEvaluation(res, *preferenceFunction, processedParams) && result.Result == *res && result.Biases == *biasesProps
 //@   ensures [C08 one_report_per_enabled_bias] result != nil && forall i int :: 0 <= i && i < len(result.Biases) ==> typeis(result.Biases[i], BiasParams) && !result.Biases[i].(BiasParams).Disabled
 
 // ---- alternative.go: evaluation results and rankings (C01, C03, C04)
@@ -732,7 +732,7 @@ package model
 //@      n <= 0 ? 0.0 : cumw(alts, q, n - 1, f) + (q in alts[n - 1].Criteria ? apply(f, q, alts[n - 1].Criteria[q]) : 0.0)
 
 //@ func PrepareCumulatedWeightsMap
-//@   property C15 C07 C20
+//@   property C15 C07 C20 C16 C18 C19
 //@   fnparam mapper pure
 //@   ensures [sums_over_considered_alternatives] fresh(result) && fresh(*result) && forall q string :: (q in *result ==> (*result)[q] == old(cumw(params.ConsideredAlternatives, q, len(params.ConsideredAlternatives), mapper)))
 //@             && (!(q in *result) ==> old(cumw(params.ConsideredAlternatives, q, len(params.ConsideredAlternatives), mapper)) == 0.0)
@@ -749,7 +749,7 @@ package model
 //@             && (!(q in weights) ==> old(cumw(params.ConsideredAlternatives, q, iter2 - 1, mapper)) == 0.0)
 
 //@ func WeightIdentity
-//@   property C15 C07 C20
+//@   property C15 C07 C20 C16 C18 C19
 //@   nopanic
 //@   ensures [identity] result == value
 
